@@ -179,8 +179,14 @@ def run(facts, rep, tier):
     rep.ob("C13.D2", "malformed:deserialize", st is not None and outcome(n["else"]) == "ret-none",
            "let-else on %s returns None" % src(n["init"])[:60] if st else "no let-else on serde_json::from_value before the policy", (n or {}).get("sp"))
     # (b) requirement parse failure
-    st, n = find_pre(lambda n: n.get("k") == "let" and n.get("else") is not None and "VersionReq::parse" in src(n.get("init")))
-    ok = st is not None and outcome(n["else"]) == "ret-none" and ext_bind.get("version", "\0") in src(n["init"])
+    st, n = find_pre(lambda n: n.get("k") == "let" and "VersionReq::parse" in src(n.get("init")) and (n.get("else") is not None or (n.get("init") or {}).get("k") == "match"))
+    if st is not None and n.get("else") is None:
+        # `let req = match VersionReq::parse(..) { Ok(r) => r, Err(_) => { ..; return None } }`
+        errs_ = [a_ for a_ in n["init"]["arms"] if psrc(a_["pat"]).startswith("Err(") or psrc(a_["pat"]) == "_"]
+        ok = bool(errs_) and all(outcome(a_["body"]) == "ret-none" for a_ in errs_)
+    else:
+        ok = st is not None and outcome(n["else"]) == "ret-none"
+    ok = ok and ext_bind.get("version", "\0") in src(n["init"])
     rep.ob("C13.D2", "malformed:requirement", ok, "let-else on %s returns None" % src(n["init"])[:60] if st else "no let-else on VersionReq::parse(version) before the policy", (n or {}).get("sp"))
     if st is not None:
         from lib import Canon as _Canon
